@@ -53,7 +53,7 @@ pub fn stmts() -> ZooLang {
         .supertype("_expr")
         .inline("_inl_stmt")
         .rule("program", rep(sym("_statement")))
-        .rule("_statement", choice(vec![sym("let_stmt"), sym("if_stmt"), sym("_inl_stmt"), sym("block"), sym("fn_def"), sym("empty_stmt"), sym("annotation"), sym("sigil_decl"), sym("use_stmt")]))
+        .rule("_statement", choice(vec![sym("let_stmt"), sym("if_stmt"), sym("_inl_stmt"), sym("block"), sym("fn_def"), sym("empty_stmt"), sym("annotation"), sym("sigil_decl"), sym("use_stmt"), sym("from_stmt")]))
         // one visible rule under two different aliases in two productions of the same parent: replacing the sigil switches the
         // production, and with it the child's node type, without touching the child
         .rule("sigil_decl", choice(vec![seq(vec![s("$"), alias(sym("identifier"), "variable", true), s(";")]), seq(vec![s("%"), alias(sym("identifier"), "module", true), s(";")]),
@@ -63,6 +63,9 @@ pub fn stmts() -> ZooLang {
         .rule("annotation", seq(vec![s("@"), sym("block_comment")]))
         // a rule that ENDS in a repetition (greedy): appended elements extend the repetition of a reused node
         .rule("use_stmt", prec_right(0, seq(vec![s("use"), rep1(sym("identifier"))])))
+        // a statement whose FIRST child ends in a repetition (and is followed by a terminator)
+        .rule("from_stmt", seq(vec![sym("path_list"), s(";")]))
+        .rule("path_list", seq(vec![s("from"), rep1(sym("identifier"))]))
         .rule("_inl_stmt", sym("expr_stmt"))
         .rule("empty_stmt", s(";"))
         .rule("let_stmt", seq(vec![s("let"), field("name", alias(sym("identifier"), "name", true)), s("="), field("value", e()), s(";")]))
@@ -91,7 +94,7 @@ pub fn stmts() -> ZooLang {
         .extras(vec![pat("\\s"), sym("comment"), sym("block_comment"), sym("pragma")]);
     ZooLang {
         name: "stmts", spec: spec(g, None),
-        lexemes: vec!["let", "if", "else", "fn", "use", "a", "1", "=", ";", "{", "}", "(", ")", "+", "*", "..", "...", ",", "#c\n", "/*c*/", "@", "$", "%", "&", "~", " ", "\n"],
+        lexemes: vec!["let", "if", "else", "fn", "use", "from", "a", "1", "=", ";", "{", "}", "(", ")", "+", "*", "..", "...", ",", "#c\n", "/*c*/", "@", "$", "%", "&", "~", " ", "\n"],
         seeds: vec![
             "", "a;", "let a = 1;", "let x = a + 1 * b;\nf(x, 2);\n", "if a { b; } else { c; }", "if a { } else if b { c; } else { d; }",
             "fn f(a, b) { let c = a..b; g(c)(1); }", "{ a; # note\n b; /* x */ c; }", "let a = (1 + 2) * 3 ... 4;", "lett = 1;", "let let = 1;",
@@ -112,6 +115,8 @@ pub fn stmts() -> ZooLang {
             "let a /*c*/ = 1; let b = #d\n 2; a + /*c*/ b; f /*c*/ (x);",
             // a let whose value spells its name, between others
             "let a = a; let b = a; let c = c;",
+            // a statement whose first child ends in a repetition
+            "from a;", "from a b c d; from e f; a;", "{ from a b c; }",
             // a rule that ends in a repetition
             "use a", "use a b c d", "use a b c d e f g h  ", "use a b; use c d e\nuse use", "{ use a b c d }",
         ],
